@@ -307,6 +307,17 @@ def gen_cases(ctx):
             t = "".join(rng.choice(ALPHA) for _ in range(rng.randint(0, 4)))
             add("random.scaling", ["scaling", s, t])
             add("random.scalable", ["scalable", s, t])
+    # exhaustive small scope: every string over a small alphabet (matcher vs Python's re on all of them)
+    import itertools
+    small = list("mVsk^-+12*/ \n") if ctx.quick() else list("mVskol^-+120*/ \nuµ")
+    maxlen = 3 if ctx.quick() else 4
+    for n in range(0, maxlen + 1):
+        for tup in itertools.product(small, repeat=n):
+            s = "".join(tup)
+            for op in ("is_atomic", "is_compound", "split", "split_compound", "invert_power", "sanitizer"):
+                if n == maxlen and not ctx.quick() and op in ("invert_power", "sanitizer"):
+                    continue
+                add("exhaustive." + op, [op, s])
     # sanitizer-heavy strings
     for _ in range(ctx.budget(1500, 15000)):
         n = rng.randint(0, 9)
@@ -354,7 +365,9 @@ def correspondence(ctx):
                     "quick: two full 21x21 slices + 3000 samples); random mixed pairs; compounds of 2-4 atoms; atoms "
                     "with power texts of 1-4 digits, malformed powers, trailing newline/blank; scaling with powers "
                     "up to 99 (factor kept inside the float range); sequences of 2-7 atoms with blanks and damage "
-                    "through split_compound/is_compound; random "
+                    "through split_compound/is_compound; list form of scalable; EVERY string of length <= 3 over a "
+                    "13-character alphabet (thorough: length <= 4 over 19 characters) through is_atomic/is_compound/"
+                    "split/split_compound/invert_power/sanitizer; random "
                     "strings over the unit alphabet; sanitizer strings. non-trivial = result is an error, True, a "
                     "non-empty prefix/power, a factor != 1 or a changed string; distinct by canonical JSON of the case",
             "samples": samples, "distribution": {"ops": dist, "impl_errors": errs},
